@@ -4,6 +4,8 @@ import (
 	"flag"
 	"fmt"
 	"math/rand"
+	"os"
+	"runtime/pprof"
 	"sync"
 	"sync/atomic"
 	"time"
@@ -63,7 +65,7 @@ func gcstressMain(args []string) {
 						case 5:
 							n.RandomKey()
 						case 6:
-							n.Exists("l"+k, "s"+k, "l"+k) // the same key twice in one command
+							n.Exists("l"+k, "l"+k) // the same key twice in one command (two different keys in one reader: see vh lockorder)
 						case 7:
 							n.ExpirePX("s"+k, 1) // the next write re-creates the record in place, gc unlinks it
 						default:
@@ -81,6 +83,9 @@ func gcstressMain(args []string) {
 	case <-fin:
 		fmt.Printf("GCSTRESS ok ops=%d done=%d elapsed_ms=%d\n", *ops**gor, atomic.LoadInt64(&done), time.Since(t0).Milliseconds())
 	case <-time.After(10 * time.Second):
+		if os.Getenv("VH_DUMP") != "" {
+			pprof.Lookup("goroutine").WriteTo(os.Stderr, 1)
+		}
 		fmt.Printf("GCSTRESS hang ops=%d done=%d elapsed_ms=%d\n", *ops**gor, atomic.LoadInt64(&done), time.Since(t0).Milliseconds())
 	}
 }
